@@ -1,6 +1,6 @@
 """C01 -- memoized evaluation returns exactly what plain execution would return."""
 from contracts import api, api_stages
-from ._api_common import TRUSTED_API, owner
+from ._api_common import TRUSTED_API, owner, _AnyApiClause
 
 ID = "C01"
 LEVEL = "other"
@@ -9,7 +9,7 @@ TRUSTED = TRUSTED_API
 ASSUMPTIONS = ["A-USER", "A-DET", "A-LOG", "A-FLOAT", "A-ALIAS"]
 LEVEL_TEXT = 'Deductive proof of cache-serve soundness over the store interface contract; signature composition is proved in the hashing contracts; dependency discovery (which no contract within reach can state for arbitrary programs) is a bounded stand-in.'
 DESIGN_REF = "5 (C01)"
-REPLAY = {}
+REPLAY = _AnyApiClause()
 owns = owner("C01")
 
 
